@@ -19,7 +19,7 @@ ANCHORS = ["export_data:export_data", "export_data:export_array", "export_data:e
            "export_data:export_weights", "import_data:import_data", "import_data:import_sparse_array", "import_data:import_array",
            "import_data:import_shape"]
 WATCHDOG = {"quick": 600, "thorough": 3000}
-FAMILIES = ["bits", "denormal", "special", "bigint", "digits17", "normal"]
+FAMILIES = ["bits", "denormal", "special", "bigint", "digits17", "normal", "whole"]
 
 
 def nontrivial(case):
@@ -93,6 +93,13 @@ def _values(rng, n, fam):
         pool = np.array([np.finfo(float).max, -np.finfo(float).max, np.finfo(float).tiny, -np.finfo(float).tiny, 5e-324, -5e-324,
                          1.0, -1.0, 0.1, 1 / 3, 2 / 3, np.pi, 1e308, 1e-308, 1.7976931348623157e308, 2.2250738585072014e-308, 4.9e-324])
         return rng.choice(pool, size=n)
+    if fam == "whole":
+        # whole-number doubles (counts, indicators, a constant fill), negative zero included: still float64 after the round trip
+        k_ = int(rng.integers(0, 3))
+        out = rng.integers(-5, 40, size=n).astype(float) if k_ == 0 else (rng.random(n) < 0.5).astype(float) if k_ == 1 else np.full(n, 3.0)
+        if n > 1:
+            out[int(rng.integers(0, n))] = -0.0
+        return out
     if fam == "bigint":
         return (2.0 ** 53 + rng.integers(0, 2 ** 20, size=n) * 2.0) * rng.choice([-1.0, 1.0], size=n)
     if fam == "digits17":
@@ -101,7 +108,11 @@ def _values(rng, n, fam):
 
 
 def _bits(a):
-    return np.ascontiguousarray(np.asarray(a, dtype=np.float64)).view(np.uint64)
+    a = np.asarray(a)
+    if a.dtype != np.float64:
+        # an imported array of another element type is not "bit for bit the values written": give it a bit pattern that cannot match
+        return np.full(a.shape, np.uint64(0xFFFFFFFFFFFFFFFF), dtype=np.uint64) if a.dtype.kind in "iub" else np.ascontiguousarray(a.astype(np.float64)).view(np.uint64)
+    return np.ascontiguousarray(a).view(np.uint64)
 
 
 def _prior_export(case, ctx, rng, d):
